@@ -499,3 +499,59 @@ __CPROVER_ensures(RET == (g_unbounded ? g_local_queue.g_producer_capacity : g_lo
     harness='  FE_get_thread_local_queue_capacity();', dropped=['thread_local lookup of the context as the address of one queue object', 'queue type kept symbolic (if constexpr -> if)'],
     trusted=['UnboundedSPSCQueue::producer_capacity / capacity by units UQ.producer_capacity, BQ.capacity'], min_obligations=2)
 UNITS += [fe_shrink, fe_capacity]
+
+# ------------------------------------------------------------------------------------------ LoggerManager::remove_logger / for_each_logger
+RL_PRELUDE = r'''
+typedef struct LGr { bool valid; } LGr;
+typedef struct LMr { bool _has_invalidated_loggers; } LMr;
+size_t g_clock, g_t_invalid, g_t_flag; int g_flag_mo;
+static inline void LG_mark_invalid(LGr* l) { l->valid = false; g_clock++; g_t_invalid = g_clock; }
+static inline void FLAG_STORE(LMr* m, bool v, int mo) { m->_has_invalidated_loggers = v; g_flag_mo = mo; g_clock++; g_t_flag = g_clock; }
+#define ATOMIC_STORE__has_invalidated_loggers(s, v, mo) FLAG_STORE(s, v, mo)
+'''
+lm_remove = dict(
+    name='LM.remove_logger', primary='C17', props={'C17'}, kind='L',
+    desc='LoggerManager::remove_logger: the logger is marked removed and then the clean-up flag raised with release order, so a backend that sees the flag also sees the mark (and frees the logger once its statements are written)',
+    structs=[], prelude=RL_PRELUDE, enforce='LM_remove_logger', replace=[],
+    funcs=[dict(src=dict(header=LMH, cls='LoggerManager', name='remove_logger'), src_params=['logger'], cfun='LM_remove_logger', sig='void LM_remove_logger(LMr* self, LGr* logger)', cls_c='LM',
+                member_fields=['_has_invalidated_loggers'], atomics=['_has_invalidated_loggers'], methods={'mark_invalid': 'LG_mark_invalid'},
+                contract=r'''
+__CPROVER_requires(__CPROVER_is_fresh(self, sizeof(*self)) && __CPROVER_is_fresh(logger, sizeof(*logger)) && g_clock == 0)
+__CPROVER_assigns(self->_has_invalidated_loggers, logger->valid, g_clock, g_t_invalid, g_t_flag, g_flag_mo)
+__CPROVER_ensures(!logger->valid && self->_has_invalidated_loggers) /*@ C17 "a removed logger is marked and the backend is told to clean up" */
+__CPROVER_ensures(g_t_invalid < g_t_flag && IS_REL(g_flag_mo)) /*@ C17 "the mark is published before the flag (release): a clean-up pass that sees the flag never finds the logger still valid and then forgets it" */
+''')],
+    harness='  LMr* m; LGr* l; LM_remove_logger(m, l);', dropped=['LoggerBase::mark_invalid as a store to the valid flag'], trusted=['release / acquire pairing with the load in cleanup_invalidated_loggers (unit LM.cleanup)'], min_obligations=4)
+
+FE_PRELUDE2 = EVEC + r'''
+typedef struct Spinlock { int d; } Spinlock;
+typedef struct LMf { EVec _loggers; Spinlock _spinlock; } LMf;
+void LOCK_GUARD(Spinlock* l) __CPROVER_assigns(g_locked) __CPROVER_ensures(g_locked);
+size_t g_cb_tracked, g_cb_total; bool g_cb_tracked_answer;
+/* the callback: an arbitrary predicate of the logger; its answer for the tracked logger is the ghost g_cb_tracked_answer, for the others arbitrary */
+bool nondet_bool(void);
+bool CALLBACK(LMf* self, Elem* l) __CPROVER_requires(g_locked) /*@ C17 "the registry is walked under its lock" */
+__CPROVER_assigns(g_cb_tracked, g_cb_total) __CPROVER_ensures(g_cb_total == OLD(g_cb_total) + 1 && (l == self->_loggers.tracked ? (g_cb_tracked == OLD(g_cb_tracked) + 1 && RET == g_cb_tracked_answer) : g_cb_tracked == OLD(g_cb_tracked)));
+#define T_(s) ((s)->_loggers.tracked)
+'''
+lm_for_each = dict(
+    name='LM.for_each_logger', primary='C17', props={'C17', 'C06'}, kind='S',
+    desc='LoggerManager::for_each_logger: under the lock, every registered logger - valid or already removed - is handed to the callback at most once, in order, until the callback answers true',
+    structs=[], prelude=FE_PRELUDE2, enforce='LM_for_each_logger', replace=['LOCK_GUARD', 'CALLBACK'], loopcontracts=True,
+    funcs=[dict(src=dict(header=LMH, cls='LoggerManager', name='for_each_logger'), src_params=['cb'], cfun='LM_for_each_logger', sig='void LM_for_each_logger(LMf* self)', cls_c='LM', member_fields=['_loggers', '_spinlock'],
+                range_for=[(r'_loggers', 'EVec_size', 'EVec_get', 'Elem*')],
+                pre_rules=[(r'LockGuard\s+const\s+lock\s*\{\s*_spinlock\s*\}\s*;', 'LOCK_GUARD(&_spinlock);'), (r'cb\(elem\.get\(\)\)', 'CALLBACK(self, elem)')],
+                loops={0: r'''
+__CPROVER_assigns(__i0, g_cb_tracked, g_cb_total)
+__CPROVER_loop_invariant(__i0 <= self->_loggers.n && g_locked && g_cb_total == __i0 && g_cb_tracked == ((__i0 > self->_loggers.g_p) ? 1 : 0))
+__CPROVER_decreases(self->_loggers.n - __i0)
+'''},
+                contract=r'''
+__CPROVER_requires(__CPROVER_is_fresh(self, sizeof(*self)) && __CPROVER_is_fresh(T_(self), sizeof(Elem)) && __CPROVER_is_fresh(self->_loggers.other, sizeof(Elem)) && self->_loggers.g_p < self->_loggers.n && self->_loggers.n < 1000000 && !self->_loggers.g_tracked_erased && !g_locked && g_cb_tracked == 0 && g_cb_total == 0)
+__CPROVER_assigns(g_locked, g_cb_tracked, g_cb_total)
+__CPROVER_ensures(g_cb_tracked <= 1 && g_cb_total <= self->_loggers.n) /*@ C17 "no logger is visited twice" */
+__CPROVER_ensures(g_cb_total == self->_loggers.n ==> g_cb_tracked == 1) /*@ C06,C17 "a walk that is not cut short by the callback visits every registered logger, removed-but-registered ones included (their sinks are still flushed)" */
+__CPROVER_ensures(g_cb_total < self->_loggers.n ==> (g_cb_total >= 1)) /*@ C17 "the walk stops early only because the callback said so" */
+''')],
+    harness='  LMf* m; LM_for_each_logger(m);', dropped=['the callback type (template parameter): an arbitrary predicate', 'LockGuard RAII unlock'], trusted=['registry abstracted to {one tracked logger, one representative of the others}'], min_obligations=10)
+UNITS += [lm_remove, lm_for_each]
